@@ -1099,15 +1099,29 @@ impl Writer {
         // NackFrag is negative acknowledgement only, i.e. requesting missing fragments.
 
         let reader_guid = GUID::new(reader_guid_prefix, nackfrag.reader_id);
-        if let Some(reader_proxy) = self.lookup_reader_proxy_mut(reader_guid) {
-          reader_proxy.mark_frags_requested(nackfrag.writer_sn, &nackfrag.fragment_number_state);
+        // We can only repair fragments of a sample that we still have, and that
+        // actually was sent as fragments.
+        let num_frags = self
+          .history_buffer
+          .get_by_sn(nackfrag.writer_sn)
+          .map(|cc| cc.data_value.payload_size())
+          .filter(|payload_size| *payload_size > self.data_max_size_serialized)
+          .map(|payload_size| self.num_frags_and_frag_size(payload_size).0);
+        if let (Some(num_frags), Some(reader_proxy)) =
+          (num_frags, self.lookup_reader_proxy_mut(reader_guid))
+        {
+          reader_proxy.mark_frags_requested(
+            nackfrag.writer_sn,
+            &nackfrag.fragment_number_state,
+            num_frags,
+          );
+          self.timed_event_timer.set_timeout(
+            self.nackfrag_response_delay,
+            TimedEvent::SendRepairFrags {
+              to_reader: reader_guid,
+            },
+          );
         }
-        self.timed_event_timer.set_timeout(
-          self.nackfrag_response_delay,
-          TimedEvent::SendRepairFrags {
-            to_reader: reader_guid,
-          },
-        );
       }
     }
   }
